@@ -22,7 +22,8 @@
 (***************************************************************************)
 EXTENDS LinAlg, TLC
 
-CONSTANTS Part, Dims, MaxRank, Instances
+CONSTANTS Part, Dims, MaxRank, Instances,
+          FantasyFollowsSource   \* TRUE: the defect repaired in the tree - the strategy of a fantasy model evaluates the SOURCE's kernel lazily
 
 VARIABLES c,       \* the enumerated case (shapes / update) or the machine state
           out      \* what the spec says must be observed (recorded for replay)
@@ -124,13 +125,15 @@ ListOK == Part = "list" => \A k \in 1..2 : CodeKw(c, k) = OwnKw(c, k)
 
 \* ============================ part "machine" ==================================================
 \* c = [models |-> sequence of [data, parent, psExists], next id]; model 1 is the source
-MInit == [models |-> << [data |-> <<"train">>, parent |-> 0, ps |-> TRUE, touched |-> 0] >>, nf |-> 0]
+\* hv: version of the model's OWN hyperparameters (a fantasy model starts with a copy of its parent's current values)
+MInit == [models |-> << [data |-> <<"train">>, parent |-> 0, ps |-> TRUE, touched |-> 0, hv |-> <<0>>] >>, nf |-> 0, nr |-> 0]
 MaxModels == 4
 MaxOps == 5
 GetFantasy(k) ==
   /\ Part = "machine" /\ Len(c.models) < MaxModels /\ c.models[k].ps /\ Len(out) < MaxOps
-  /\ c' = [models |-> Append(c.models, [data |-> Append(c.models[k].data, "f" \o ToString(c.nf + 1)), parent |-> k, ps |-> TRUE, touched |-> 0]),
-           nf |-> c.nf + 1]
+  /\ c' = [models |-> Append(c.models, [data |-> Append(c.models[k].data, "f" \o ToString(c.nf + 1)), parent |-> k, ps |-> TRUE, touched |-> 0,
+                                        hv |-> c.models[k].hv]),
+           nf |-> c.nf + 1, nr |-> c.nr]
   /\ out' = Append(out, [a |-> "GetFantasy", of |-> k, new |-> Len(c.models) + 1, data |-> Append(c.models[k].data, "f" \o ToString(c.nf + 1))])
 
 \* evaluating a model fills its own caches ("touched" counts its evaluations) and nothing else; a fantasy may be created from a
@@ -140,6 +143,18 @@ Predict(k) ==
   /\ Part = "machine" /\ Len(out) < MaxOps
   /\ c' = [c EXCEPT !.models[k].touched = 1]
   /\ out' = Append(out, [a |-> "Predict", of |-> k, new |-> 0, data |-> c.models[k].data])
+\* the hyperparameters of model k are re-fitted (train(), new values, eval(), one prediction): only model k changes - its earlier
+\* fantasies keep the values they were created with, its later fantasies get the new ones
+Refit(k) ==
+  /\ Part = "machine" /\ Len(out) < MaxOps /\ c.nr < 1
+  /\ c' = [c EXCEPT !.nr = @ + 1,
+                    !.models = [j \in 1..Len(c.models) |->
+                                  IF j = k \/ (FantasyFollowsSource /\ c.models[j].parent = k)
+                                  THEN [c.models[j] EXCEPT !.hv = Append(@, c.nr + 1), !.touched = IF j = k THEN 1 ELSE @]
+                                  ELSE c.models[j]]]
+  /\ out' = Append(out, [a |-> "Refit", of |-> k, new |-> 0, data |-> c.models[k].data])
+HyperOwn == [][ Part = "machine" => \A k \in 1..Len(c.models) :
+                 c'.models[k].hv # c.models[k].hv => (Len(out') = Len(out) + 1 /\ out'[Len(out')].a = "Refit" /\ out'[Len(out')].of = k) ]_vars
 \* the denotation of every model is fixed at its creation: (hyperparameters, data)
 DataFixed == [][ Part = "machine" => \A k \in 1..Len(c.models) : c'.models[k].data = c.models[k].data /\ c'.models[k].parent = c.models[k].parent ]_vars
 
@@ -157,7 +172,7 @@ Init ==
        [] Part = "machine" -> c = MInit
 
 Next ==
-  IF Part = "machine" THEN \E k \in 1..Len(c.models) : GetFantasy(k) \/ Predict(k)
+  IF Part = "machine" THEN \E k \in 1..Len(c.models) : GetFantasy(k) \/ Predict(k) \/ Refit(k)
   ELSE UNCHANGED vars
 
 Spec == Init /\ [][Next]_vars
